@@ -17,6 +17,7 @@
                            the block files; an address receives payments only after the wallet issued it (`paid`)
 -/
 import MW.Lemmas.LedgerMain
+import MW.Lemmas.LedgerCredValEx
 import MW.Lemmas.LedgerHistoryEx
 import MW.Lemmas.LedgerIssueEx
 import MW.Lemmas.LedgerAbs2
@@ -87,6 +88,31 @@ theorem books_ledger (p : Params) (own : Own) (chain : List Block) :
 /-- credit table = every owned output of the chain, with spent flag and spender as the chain has them -/
 theorem books_credits {p : Params} {own : Own} {chain : List Block} (h : ChainValid own chain) :
     CredInv p own (occs chain) (bookOf p own chain) := credInv_bookOf h
+
+/-- CREDIT VALUES BY KEY: every record of the credit table of the books of a valid chain sits at the key (transaction,
+    block, index) of an owned output of a transaction of the chain, and its value is the model's `minedCreditOf` of that
+    output (what AddCredits wrote) — untouched while no transaction of the chain spends the output, otherwise with exactly
+    `spent := true, spentBy := some dk` changed, `dk` the debit key of the spending input -/
+theorem books_credit_values {p : Params} {own : Own} {chain : List Block} (h : ChainValid own chain)
+    {ck : CredKey} {cr : Credit} (hg : (bookOf p own chain).credits ck = some cr) :
+    MW.Lemmas.Ledger.CredVal.CredAt p own (occs chain) ck cr := MW.Lemmas.Ledger.CredVal.bookOf_credit_value h hg
+
+/-- … at store level: a credit record under (t.id, block, j), `t` a transaction of a block of the wallet's chain, belongs
+    to output `j` of `t`, that output pays an owned address, and amount, class, script hash, change flag and maturity of
+    the record are those of `minedCreditOf` of the output, whether the credit is spent or not -/
+theorem inv_credit_values {c : Ctx} {s : Store} {chain : List Block} (hI : Inv c s chain) (hV : ChainValid c.own chain)
+    {b : Block} (hb : b ∈ chain) {t : Tx} (ht : t ∈ b.txs) {j : Nat} {bm : BlockMeta} {cr : Credit}
+    (h : AMap.get s.credits ⟨t.id, bm, j⟩ = some cr) :
+    ∃ o w ch, t.outs[j]? = some o ∧ ownerOf c.own o = some (w, ch) ∧
+      MW.Lemmas.Ledger.CredVal.SameCoin cr (minedCreditOf c.p t.cb ⟨j, o, w, ch⟩) :=
+  MW.Lemmas.Ledger.CredVal.inv_credit_value_block hI hV hb ht h
+
+/-- the hypotheses are met: in the books of the chain G · B1(C1 pays A1) · B2(T1 spends C1:0) the credit of C1:0 is the
+    `minedCreditOf` of the output, marked spent by input 0 of T1 in B2 -/
+example : ChainValid d2Own MW.Lemmas.Ledger.CredVal.exChain ∧
+    (bookOf { cbMaturity := 1 } d2Own MW.Lemmas.Ledger.CredVal.exChain).credits ⟨"C1", ⟨1, "B1"⟩, 0⟩ =
+      some { minedCreditOf { cbMaturity := 1 } true ⟨0, ⟨"A1", 500, .std⟩, "W1", false⟩ with
+        spent := true, spentBy := some ⟨"T1", ⟨2, "B2"⟩, 0⟩ } := MW.Lemmas.Ledger.CredVal.exChain_ok
 
 /-- one debit per owned spent input, none else -/
 theorem books_debits {p : Params} {own : Own} {chain : List Block} (h : ChainValid own chain) :
